@@ -773,7 +773,7 @@ pub fn run_c10(cfg: &Config) -> i32 {
 	}
 	let seed = cfg.seed;
 	let shards = 64usize;
-	let n = cfg.budget(60_000, 3_000_000);
+	let n = cfg.budget(150_000, 4_000_000);
 	let rep = parallel(cfg.threads, shards, |i| {
 		let mut rep = Report::new();
 		let mut rng = Rng::new(seed).fork(0xc10 + i as u64);
